@@ -155,6 +155,11 @@ class Container:
         Zeros memory via set_current_memory_usage to properly update pool tracking."""
         self.error = error
         self._completed = True
+        # a container that has ended is not at an operator boundary any more:
+        # after kill() between two operators the flag was still set, and a
+        # Suspend was accepted for the dead container once its failed
+        # operators had been assigned again
+        self._can_suspend = False
         self.set_current_memory_usage(0.0)
 
     def is_completed(self):
